@@ -39,7 +39,7 @@ Section C11.
   Context {V Ch Req D : Type}.
   Context (candidate : V -> Ch -> V) (candidate_rb : V -> Ch -> V) (rollback_of : V -> Ch -> Ch)
           (overlay : V -> V -> V) (commit_merge : N -> N -> V -> V -> Ch -> V)
-          (payload : N -> V -> Ch -> option Req) (record_applied : N -> V -> V -> V -> Ch -> V)
+          (payload : N -> V -> Ch -> option Req) (record_applied : N -> N -> V -> V -> V -> Ch -> V)
           (touched : N -> V -> Ch -> V) (restore : V -> V -> V)
           (resync_payload : V -> list (option Req)) (doc_ok : V -> bool)
           (dev_apply : D -> Req -> D) (stamp : N -> Ch -> Ch) (v_empty : V) (d_empty : D) (ch_empty : Ch).
@@ -115,7 +115,7 @@ Section C11.
     → dev_answer w t (c_term C) o = COk
     → rec_prop o w (t, i) =
     ([EDev (DevSet t m (c_term C) (Some i) req COk);
-    EPutAValues t (record_applied i (c_avalues C) (aview C) (view C) (rb_change P));
+    EPutAValues t (record_applied (o_order o) i (c_avalues C) (aview C) (view C) (rb_change P));
     EPutCfg t
     (C <| c_applied := i |> <| c_inline := touched i (view C) (rb_change P) |> <| c_ainline :=
     v_empty |>); EPutProp (t, i) (P <| p_apply := Some Done |> <| p_term := c_term C |>)],
